@@ -112,7 +112,7 @@ def check_parses(res, prop, parses, hist, key_fn=None):
 def run_c05(t, tier, res):
     mode = t.draw(3)
     flavour = {"nonascii": t.chance(1, 3), "sites": t.chance(1, 3), "nonbmp": t.chance(1, 6), "awkward": t.chance(1, 12),
-               "tricky": t.chance(2, 3)}
+               "tricky": t.chance(2, 3), "zoo": t.chance(1, 4)}
     if mode < 2:
         pws, opts = trainer.gen_list(t, flavour)
         extra = ["1qaz2019", "#12019", "a@b.comwww.c.org", "No.1qaz", "password2019monkey", "x19991999", "qwer1234asdf",
@@ -339,7 +339,7 @@ def check_ruleset_against_tally(rdir, enc, tally, opts, n_valid):
 
 
 def run_c06(t, tier, res):
-    flavour = {"nonascii": t.chance(1, 3), "sites": t.chance(1, 2), "nonbmp": t.chance(1, 8)}
+    flavour = {"nonascii": t.chance(1, 3), "sites": t.chance(1, 2), "nonbmp": t.chance(1, 8), "zoo": t.chance(1, 5)}
     pws, opts = trainer.gen_list(t, flavour)
     if t.chance(1, 3):
         opts["coverage"] = round(t.between(1, 99) / 100.0, 2)
